@@ -357,7 +357,7 @@ def _targets(st):
     return _store_targets(st)
 
 
-def s10(ctx, rep):
+def s10(ctx, rep, clause="S10"):
     P = ctx.P
     f = P.method("Tuner", "_schedule_new_tasks")
     cfg = cfg_of(f)
@@ -369,7 +369,7 @@ def s10(ctx, rep):
     for name, bn in (("running set", add), ("tuning status", upd)):
         succ = [s for s, l in cfg.succ[nid]]
         p = cfg.path(succ, [cfg.exit, cfg.raise_exit, nid], deleted=bn)
-        rep.put(bool(bn) and p is None, "S10", "must_follow", f"Tuner._schedule_new_tasks: started trial registered in the {name} before the next request",
+        rep.put(bool(bn) and p is None, clause, "must_follow", f"Tuner._schedule_new_tasks: started trial registered in the {name} before the next request",
                 f, call, "registration follows each _schedule_new_task() before the call can be reached again or the function left",
                 f"a trial returned by _schedule_new_task() is not registered in the {name} before the next _schedule_new_task() "
                 "(which may raise StopIteration) or the end of the function: when the search space runs out in the middle of a "
